@@ -38,10 +38,10 @@ def plan(tier):
         shards=shards,
         bounds=dict(b, alphabet=ALPHA, err_alphabet=ERR_ALPHA, offset_settings=len(OFFSETS)),
         rule=('calc: every string of length <= N over {a,\\n,\\r,space}, every position 0..len, '
-              '12 offset settings, LineNumbersCalculator and LatexWalker (tuple+dict); one '
+              '12 offset settings, LineNumbersCalculator and LatexWalker (tuple+dict), also with the first-line / column offset left out; one '
               'evaluation = one (string, offsets) pair with all its positions, non-trivial iff the '
               'string contains a newline. err: every word of length <= M over the error alphabet '
-              'parsed strictly under 3 offset settings; non-trivial iff a parse error was raised '
+              'parsed strictly under 3 offset settings (general parser), and through the group / expression parsers and the pylatexenc-2 entry points get_latex_expression, get_latex_braced_group, get_latex_nodes under one; non-trivial iff a parse error was raised '
               'and checked.  Words are distinct by construction.'),
         assumptions=['oracle: line = number of \\n before pos; column = pos - (index after last \\n) + offset'],
     )
@@ -57,12 +57,22 @@ def check_calc(s, acc):
             kw['line_number_offset'] = lo
         calc = LineNumbersCalculator(s, **kw)
         lw = LatexWalker(s, **kw)
+        apis = [('calc', calc.pos_to_lineno_colno), ('walker', lw.pos_to_lineno_colno)]
+        # an offset left out means its documented default (0), whatever the other offsets are
+        if fo == 0:
+            kw2 = {k: v for k, v in kw.items() if k != 'first_line_column_offset'}
+            apis.append(('walker-first-line-offset-omitted', LatexWalker(s, **kw2).pos_to_lineno_colno))
+            apis.append(('calc-first-line-offset-omitted', LineNumbersCalculator(s, **kw2).pos_to_lineno_colno))
+        if co == 0:
+            kw3 = {k: v for k, v in kw.items() if k != 'column_offset'}
+            apis.append(('walker-column-offset-omitted', LatexWalker(s, **kw3).pos_to_lineno_colno))
+            apis.append(('calc-column-offset-omitted', LineNumbersCalculator(s, **kw3).pos_to_lineno_colno))
         acc.count('evaluations')
         if '\n' in s:
             acc.count('nontrivial')
         for pos in range(n + 1):
             exp = ref_linecol(s, pos, lo, fo, co)
-            for api, fn in (('calc', calc.pos_to_lineno_colno), ('walker', lw.pos_to_lineno_colno)):
+            for api, fn in apis:
                 st, got = run_guarded(fn, pos)
                 st2, gotd = run_guarded(fn, pos, as_dict=True)
                 acc.count('positions')
@@ -95,44 +105,68 @@ def check_calc(s, acc):
 ERR_OFFSETS = [(None, 0, 0), (5, 3, 2), (0, 0, 2)]
 
 
-def _strict_parse(s, kw):
+def _strict_parse(s, kw, entry='general'):
     from pylatexenc.latexwalker import LatexWalker
-    from pylatexenc.latexnodes.parsers import LatexGeneralNodesParser
+    from pylatexenc.latexnodes.parsers import LatexGeneralNodesParser, LatexDelimitedGroupParser, LatexExpressionParser
     lw = LatexWalker(s, tolerant_parsing=False, **kw)
-    return lw.parse_content(LatexGeneralNodesParser())
+    if entry == 'general':
+        return lw.parse_content(LatexGeneralNodesParser())
+    if entry == 'group':
+        return lw.parse_content(LatexDelimitedGroupParser(delimiters=('{', '}')))
+    if entry == 'expression':
+        return lw.parse_content(LatexExpressionParser())
+    if entry == 'get_latex_expression':
+        return lw.get_latex_expression(0)
+    if entry == 'get_latex_braced_group':
+        return lw.get_latex_braced_group(0)
+    if entry == 'get_latex_nodes':
+        return lw.get_latex_nodes(0)
+    raise ValueError(entry)
+
+
+ENTRIES = ['general', 'group', 'expression', 'get_latex_expression', 'get_latex_braced_group', 'get_latex_nodes']
 
 
 def check_err(s, acc):
-    from pylatexenc.latexwalker import LatexWalkerParseError
     for (lo, fo, co) in ERR_OFFSETS:
-        kw = dict(first_line_column_offset=fo, column_offset=co)
-        if lo is not None:
-            kw['line_number_offset'] = lo
-        st, res = run_guarded(_strict_parse, s, kw)
-        acc.count('evaluations')
-        if st != 'exc' or not isinstance(res, LatexWalkerParseError):
-            acc.count('err_no_parse_error')
-            continue     # C05 decides exception types; here only located errors
-        e = res
-        pos = getattr(e, 'pos', None)
-        if pos is None:
-            acc.count('err_unlocated')   # C05 reports unlocated errors
-            if e.lineno is not None or e.colno is not None:
-                acc.violation(ID, 'err', dict(s=s, offsets=[lo, fo, co]),
-                              dict(kind='error-linecol-without-pos'),
-                              observed=[e.lineno, e.colno], expected=[None, None])
-            continue
-        if not (0 <= pos <= len(s)):
-            acc.count('err_pos_out_of_range')
-            continue
-        acc.count('nontrivial')
-        acc.count('errors_checked')
-        exp = ref_linecol(s, pos, lo, fo, co)
-        acc.outcome(('err', exp, type(e).__name__))
-        if (e.lineno, e.colno) != exp:
-            acc.violation(ID, 'err', dict(s=s, offsets=[lo, fo, co]),
-                          dict(kind='error-linecol', exc=type(e).__name__),
-                          observed=[pos, e.lineno, e.colno], expected=[pos] + list(exp))
+        for entry in ENTRIES:
+            # the other entry points (group / expression parsers, pylatexenc-2 calls) under one offset setting
+            if entry != 'general' and (lo, fo, co) != ERR_OFFSETS[1]:
+                continue
+            _check_err_one(s, lo, fo, co, entry, acc)
+
+
+def _check_err_one(s, lo, fo, co, entry, acc):
+    from pylatexenc.latexwalker import LatexWalkerParseError
+    kw = dict(first_line_column_offset=fo, column_offset=co)
+    if lo is not None:
+        kw['line_number_offset'] = lo
+    st, res = run_guarded(_strict_parse, s, kw, entry)
+    acc.count('evaluations')
+    if st != 'exc' or not isinstance(res, LatexWalkerParseError):
+        acc.count('err_no_parse_error')
+        return     # C05 decides exception types; here only located errors
+    e = res
+    case = dict(s=s, offsets=[lo, fo, co])
+    if entry != 'general':
+        case['entry'] = entry
+    pos = getattr(e, 'pos', None)
+    if pos is None:
+        acc.count('err_unlocated')   # C05 reports unlocated errors
+        if e.lineno is not None or e.colno is not None:
+            acc.violation(ID, 'err', case, dict(kind='error-linecol-without-pos'),
+                          observed=[e.lineno, e.colno], expected=[None, None])
+        return
+    if not (0 <= pos <= len(s)):
+        acc.count('err_pos_out_of_range')
+        return
+    acc.count('nontrivial')
+    acc.count('errors_checked')
+    exp = ref_linecol(s, pos, lo, fo, co)
+    acc.outcome(('err', exp, type(e).__name__))
+    if (e.lineno, e.colno) != exp:
+        acc.violation(ID, 'err', case, dict(kind='error-linecol', exc=type(e).__name__, entry=entry),
+                      observed=[pos, e.lineno, e.colno], expected=[pos] + list(exp))
 
 
 def check_case(sub, case, acc):
